@@ -49,6 +49,7 @@ def run(chk, tier):
         rebrand(chk, prog, c)
         static_returns(chk, prog, c)
         free_output_lifetimes(chk, prog, c)
+        root_collect_bound(chk, prog, c)
         common.unsafe_macros(chk, prog, "C12", c)
     res = witness.report(chk, "C12", rule="escape-corpus", floor=80, tier=tier)
     witness.report(chk, "C03", rule="exclusive-access-witness", floor=5, tier=tier)
@@ -164,8 +165,7 @@ def collect_impl_lifetimes(chk, prog, c):
     chk.floor("collect-impl-lifetimes[%s]" % c, n, 4)
 
 
-def rebrand(chk, prog, c):
-    prog.edges()
+def rebrand_inventory(chk, prog, c, rule="rebrand-inventory"):
     sites = []
     for d_raw, key in prog.seed.items():
         b = prog.bodies[key]
@@ -176,10 +176,16 @@ def rebrand(chk, prog, c):
                     sites.append((norm(d_raw), bi, key))
     fns = sorted({s[0] for s in sites})
     extra = [f for f in fns if prog.fn_of_closure(f) not in REBRAND_FNS]
-    chk.inst("rebrand-inventory", "lifetime-only-transmutes[%s]" % c, not extra,
+    chk.inst(rule, "lifetime-only-transmutes[%s]" % c, not extra,
              detail="lifetime-only transmute (re-branding) outside the reviewed functions: %s" % extra,
              sample={"sites": fns})
     chk.floor("rebrand-sites[%s]" % c, len(sites), 3)
+    return sites
+
+
+def rebrand(chk, prog, c):
+    prog.edges()
+    rebrand_inventory(chk, prog, c)
     # the brand of a handle's pointer is restored only after contains() said yes, and contains() decides by
     # the identity of the slot table (interpreted from MIR; shared with C14 / C20)
     rules_roots.fetch_rules(chk, prog, c, rule="fetch-contract")
@@ -223,6 +229,27 @@ def free_output_lifetimes(chk, prog, c):
                  loc="%s:%s" % (f["span"]["f"], f["span"]["l"]),
                  sample={"fn": f["n"], "output": out, "free": names})
     chk.floor("exported-safe-fns[%s]" % c, n, 80)
+
+
+def root_collect_bound(chk, prog, c):
+    """The root is stored at the brand 'static inside the arena; what makes an untraced `&'gc T` / `Cell<Gc>` root
+    unacceptable is that the collecting methods demand `for<'a> Root<'a>: Collect<'a>` - for EVERY brand, not for
+    the one the library happens to instantiate. A bound checked at a single lifetime accepts such roots through
+    the 'static-only impls."""
+    import re as _re
+    n = 0
+    for m in ("collect_debt", "mark_debt", "finish_marking", "cycle_debt", "finish_cycle"):
+        for f in prog.fn_n.get("arena::Arena::" + m, []):
+            n += 1
+            hr = [p["s"] for p in f["predicates"]
+                  if _re.match(r"^for<(\'\w+)> .*Root: collect::Collect<\1>$", p["s"])]
+            chk.inst("collecting-methods-demand-collect-for-every-brand", "arena::Arena::%s[%s]" % (m, c), bool(hr),
+                     detail="`Arena::%s` does not require the root to be Collect for every brand (higher-ranked "
+                            "`for<'a> Root<'a>: Collect<'a>`); its Collect predicates are %s: a root that is only Collect at "
+                            "'static (through the 'static-only impls) is accepted and never traced" % (
+                                m, [p["s"] for p in f["predicates"] if "Collect" in p["s"]]),
+                     loc="%s:%s" % (f["span"]["f"], f["span"]["l"]))
+    chk.floor("collecting-methods[%s]" % c, n, 3)
 
 
 def static_returns(chk, prog, c):
